@@ -308,8 +308,11 @@ def build_item(item: dict, opts: str = "") -> Build:
         # the public field API instead of the plugin's output
         from . import handmade
 
+        # (descriptors only: these classes do not depend on the plugin, so they are available even when the plugin of the
+        # tree under test cannot produce the matrix module)
         b = Build(matrix_protos(), opts)
-        b.full()
+        b.run_protoc(with_plugin=False)
+        b.load_descriptors()
         handmade.install(b)
         return b
     b = Build(item_protos(item), opts or item.get("plugin_opts", ""), cmdline=item.get("cmdline", "all"))
